@@ -27,6 +27,7 @@ func propC16(c *Check) {
 	c.Rule("R8", "a proposer that acts is marked accepted (otherwise the end blocker elects a new one although the proposer did not fail to accept in time): every success exit of VerifyProposal / VerifyNonProposal is reached either with the loaded ProposerAccepted flag true or through a Relayer.Set of the record whose flag was set to true")
 	c.actingProposerMarkedAccepted("R8")
 	c.genesisRefusesProposerAmongVoters("R7")
+	c.duplicateChecksRecord("R7", "x/relayer/module.InitGenesis", 1)
 
 	nv := p.MustFn("x/relayer/keeper.msgServer.NewVoter")
 	ws := p.writeSites(nv)
@@ -588,4 +589,85 @@ func (c *Check) actingProposerMarkedAccepted(rule string) {
 			c.Held(rule, cons, p.InstrPos(marks[0]), "flag loaded true, or set and stored")
 		}
 	}
+}
+
+// duplicateChecksRecord: a "seen before?" test on a local set (`if seen[k] { panic }`, `if _, ok := seen[k]; ok { panic }`) only
+// refuses duplicates if the key is recorded afterwards: for every lookup on a map made in the function whose "present"
+// outcome leads to a panic, the same map is updated under the same key in code the lookup's block dominates.
+func (c *Check) duplicateChecksRecord(rule, fnKey string, floor int) {
+	p := c.p
+	f := p.MustFn(fnKey)
+	c.touch(f)
+	r := p.R(f)
+	leadsToPanic := func(b *ssa.BasicBlock) bool {
+		for d := 0; d < 3 && b != nil; d++ {
+			for _, in := range b.Instrs {
+				if _, ok := in.(*ssa.Panic); ok {
+					return true
+				}
+			}
+			if len(b.Succs) != 1 {
+				return false
+			}
+			b = b.Succs[0]
+		}
+		return false
+	}
+	n := 0
+	for _, b := range f.Blocks {
+		if len(b.Instrs) == 0 {
+			continue
+		}
+		iff, ok := b.Instrs[len(b.Instrs)-1].(*ssa.If)
+		if !ok {
+			continue
+		}
+		cond, neg := iff.Cond, false
+		for {
+			if u, ok := cond.(*ssa.UnOp); ok && u.Op == token.NOT {
+				cond, neg = u.X, !neg
+				continue
+			}
+			break
+		}
+		var lk *ssa.Lookup
+		switch x := cond.(type) {
+		case *ssa.Lookup:
+			lk = x
+		case *ssa.Extract:
+			if l, ok := x.Tuple.(*ssa.Lookup); ok && x.Index == 1 {
+				lk = l
+			}
+		}
+		if lk == nil {
+			continue
+		}
+		if _, isLocal := lk.X.(*ssa.MakeMap); !isLocal {
+			continue
+		}
+		present := b.Succs[0]
+		if neg {
+			present = b.Succs[1]
+		}
+		if !leadsToPanic(present) {
+			continue // a membership requirement (panic when absent), not a duplicate check
+		}
+		n++
+		key := r.E(lk.Index)
+		cons := fmt.Sprintf("duplicate-check-records#%d @ %s", n, fnKey)
+		recorded := false
+		for _, b2 := range f.Blocks {
+			for _, in := range b2.Instrs {
+				if mu, ok := in.(*ssa.MapUpdate); ok && mu.Map == lk.X && r.E(mu.Key) == key && (b.Dominates(b2) || b == b2) {
+					recorded = true
+				}
+			}
+		}
+		if recorded {
+			c.Held(rule, cons, p.InstrPos(lk), "seen["+key+"] is tested, and set on the way on")
+		} else {
+			c.Violated(rule, cons, p.InstrPos(lk), "the set is asked whether it holds "+key+" but that key is never put into it: the duplicate check cannot fire")
+		}
+	}
+	c.Floor(rule, "duplicate checks in "+fnKey, n, floor)
 }
